@@ -302,6 +302,45 @@ func Recv[T any](ch <-chan T) T {
 	return <-ch
 }
 
+// RecvOK is Recv for the two-value form (and for range loops over a channel): ok is false when ch is closed and drained.
+func RecvOK[T any](ch <-chan T) (T, bool) {
+	s := active
+	if s == nil || s.cur == nil {
+		v, ok := <-ch
+		return v, ok
+	}
+	var zero T
+	if ch == nil {
+		Block("recv-nil", func() bool { return true })
+		return zero, false
+	}
+	s.schedule("recv")
+	st := s.state(ch)
+	var stash *T
+	ready := func() bool {
+		if stash != nil || len(ch) > 0 || st.closed {
+			return true
+		}
+		select {
+		case v, ok := <-ch:
+			if !ok {
+				st.closed = true
+			} else {
+				stash = &v
+			}
+			return true
+		default:
+			return false
+		}
+	}
+	Block("recv-wait", func() bool { return !ready() })
+	if stash != nil {
+		return *stash, true
+	}
+	v, ok := <-ch
+	return v, ok
+}
+
 // Close closes ch.
 func Close[T any](ch chan T) {
 	if s := active; s != nil && s.cur != nil {
